@@ -19,7 +19,7 @@ def sh(cmd, cwd=None, timeout=1800):
 
 def main():
     ap = argparse.ArgumentParser(); ap.add_argument('sid'); ap.add_argument('wt'); ap.add_argument('--props'); ap.add_argument('--skip-demo', action='store_true'); ap.add_argument('--recheck', action='store_true', help='only re-run the checks against seeded/<id>/patch.diff')
-    ap.add_argument('--property'); ap.add_argument('--change'); ap.add_argument('--needs'); ap.add_argument('--tier', choices=('quick', 'thorough'), default='quick')
+    ap.add_argument('--property'); ap.add_argument('--change'); ap.add_argument('--needs'); ap.add_argument('--tier', choices=('quick', 'thorough'), default='quick'); ap.add_argument('--copy', action='store_true', help='run the checks in parallel against a scratch copy of /repo HEAD with the patch applied (VERIF_REPO) instead of patching /repo itself')
     a = ap.parse_args()
     wt = a.wt; seed = os.path.join(wt, 'SEED')
     log = {}
@@ -47,22 +47,35 @@ def main():
     confirmed = suite_ok and (a.skip_demo or (demo_changed != 0 and demo_orig == 0))
     print(f'suite_ok={suite_ok} demo_changed_rc={demo_changed} demo_original_rc={demo_orig} confirmed={confirmed}')
     # 2. checks
-    st, _ = sh('git -C /repo status --porcelain --untracked-files=no')
-    if _.strip(): sys.exit('/repo is not clean')
-    rc, out = sh(f'git -C /repo apply {seed}/patch.diff')
-    if rc != 0: sys.exit('patch does not apply to /repo: ' + out)
     fired = {}
-    try:
-        m = json.load(open(os.path.join(VERIF, 'MANIFEST.json')))
-        props = a.props.split(',') if a.props else [c['property_id'] for c in m['checks']]
-        env = dict(os.environ, VERIF_EVIDENCE_DIR='/tmp/seed-ev', VERIF_OUT='/tmp/seed-out')
-        for pid in props:
-            p = subprocess.run([os.path.join(VERIF, 'check'), pid, '--tier', a.tier], capture_output=True, text=True, env=env)
-            rules = sorted(set(re.findall(r'violation: rule=(\S+)', p.stdout)))
-            if p.returncode != 0: fired[pid] = {'exit': p.returncode, 'rules': rules, 'first': next((l.strip()[:300] for l in p.stdout.splitlines() if 'violation:' in l or 'ANALYSIS-BROKEN' in l), '')}
-    finally:
-        sh('git -C /repo checkout -- .')
-        shutil.rmtree('/tmp/seed-ev', ignore_errors=True); shutil.rmtree('/tmp/seed-out', ignore_errors=True)
+    m = json.load(open(os.path.join(VERIF, 'MANIFEST.json')))
+    props = a.props.split(',') if a.props else [c['property_id'] for c in m['checks']]
+    def run_check(pid, env):
+        p = subprocess.run([os.path.join(VERIF, 'check'), pid, '--tier', a.tier], capture_output=True, text=True, env=env)
+        rules = sorted(set(re.findall(r'violation: rule=(\S+)', p.stdout)))
+        if p.returncode != 0: fired[pid] = {'exit': p.returncode, 'rules': rules, 'first': next((l.strip()[:300] for l in p.stdout.splitlines() if 'violation:' in l or 'ANALYSIS-BROKEN' in l), '')}
+    if a.copy:
+        import tempfile, concurrent.futures
+        tmp = tempfile.mkdtemp(prefix='seedcopy-'); cp = os.path.join(tmp, 'repo'); os.makedirs(cp)
+        try:
+            rc, out = sh(f'git -C /repo archive HEAD | tar -x -C {cp} && cd {cp} && patch -p1 -s -i {seed}/patch.diff')
+            if rc != 0: sys.exit('patch does not apply to the copy: ' + out)
+            with concurrent.futures.ThreadPoolExecutor(10) as ex:
+                list(ex.map(lambda pid: run_check(pid, dict(os.environ, VERIF_REPO=cp, VERIF_EVIDENCE_DIR=os.path.join(tmp, 'ev-' + pid), VERIF_OUT=os.path.join(tmp, 'out-' + pid))), props))
+            fired = dict(sorted(fired.items()))
+        finally:
+            shutil.rmtree(tmp, ignore_errors=True)
+    else:
+        st, _ = sh('git -C /repo status --porcelain --untracked-files=no')
+        if _.strip(): sys.exit('/repo is not clean')
+        rc, out = sh(f'git -C /repo apply {seed}/patch.diff')
+        if rc != 0: sys.exit('patch does not apply to /repo: ' + out)
+        try:
+            env = dict(os.environ, VERIF_EVIDENCE_DIR='/tmp/seed-ev', VERIF_OUT='/tmp/seed-out')
+            for pid in props: run_check(pid, env)
+        finally:
+            sh('git -C /repo checkout -- .')
+            shutil.rmtree('/tmp/seed-ev', ignore_errors=True); shutil.rmtree('/tmp/seed-out', ignore_errors=True)
     for pid, f in fired.items(): print(f'  {pid}: exit {f["exit"]} {f["rules"]} {f["first"][:200]}')
     if not fired: print('  NO CHECK FIRED')
     # 3. store
@@ -79,7 +92,7 @@ def main():
         json.dump(meta, open(meta_path, 'w'), indent=1); print('rechecked', dst); return
     meta.update({'seed_id': a.sid, 'confirmed': confirmed, 'suite_still_passes': suite_ok, 'demo_exit_changed_tree': demo_changed, 'demo_exit_original_tree': demo_orig,
                  'ran': ['tools/baseline.py <worktree> (make clean all check, 114 baseline names)', 'SEED/run.sh on the changed and on the original tree (git stash), rebuilt each time',
-                         'git -C /repo apply patch.diff; ./check <every property>; git -C /repo checkout -- .'],
+                         ('scratch copy of /repo HEAD + patch.diff as VERIF_REPO; ./check <every property>' if a.copy else 'git -C /repo apply patch.diff; ./check <every property>; git -C /repo checkout -- .')],
                  'checks_fired': fired, 'log': log})
     json.dump(meta, open(meta_path, 'w'), indent=1)
     print('stored in', dst)
